@@ -465,11 +465,17 @@ impl<'a> JoinOutput<'a> {
 
         if is_try && (step_number) < max_step_count - 1 {
             if transpose {
+                let mut active_index: usize = 0;
                 let (is_result_successful, result_vars_matcher): (Vec<_>, Vec<_>) = result_vars
                     .iter()
                     .enumerate()
                     .filter_map(|(index, result_var)| {
                         if self.is_branch_active_in_step(step_number, index) {
+                            //
+                            // `position` below counts only active branches.
+                            //
+                            let index = active_index;
+                            active_index += 1;
                             (
                                 quote! { #result_var.as_ref().map(|_| true).unwrap_or(false) },
                                 quote! {
